@@ -157,6 +157,39 @@ lemma col_clip_iff (c : Char) (hc : c = 'C' ∨ c = 'B' ∨ c = 'I') (v : K) (l 
     · rintro ⟨ab, _, c⟩
       exact ⟨ab, fun _ => c rfl⟩
 
+/-- bounds + integrality as `eco_solver.solve` sets them, column by column: the bound rows come from
+the clipped bounds, `int_vars_idx` holds the `'B'` and `'I'` columns.  No hypothesis on the alphabet:
+ECOS asks nothing of a column with another letter. -/
+lemma col_ecos_iff (c : Char) (v : K) (l u : Option K) :
+    ((LinProg.geLb v (if c = 'B' then lbBin l else l) ∧ LinProg.leUb v (if c = 'B' then ubBin u else u)) ∧
+      ((c == 'B' || c == 'I') = true → IsInt v)) ↔
+    ((LinProg.geLb v l ∧ LinProg.leUb v u) ∧ ((c = 'B' → IsBin v) ∧ (c = 'I' → IsInt v))) := by
+  by_cases hB : c = 'B'
+  · subst hB
+    have := bin_clip_iff v l u
+    rw [if_pos rfl, if_pos rfl]
+    constructor
+    · rintro ⟨⟨a, b⟩, c⟩
+      obtain ⟨p, q, r⟩ := this.mp ⟨c (by decide), a, b⟩
+      exact ⟨⟨q, r⟩, fun _ => p, fun h => absurd h (by decide)⟩
+    · rintro ⟨⟨q, r⟩, p, _⟩
+      obtain ⟨a, b, c⟩ := this.mpr ⟨p rfl, q, r⟩
+      exact ⟨⟨b, c⟩, fun _ => a⟩
+  · rw [if_neg hB, if_neg hB]
+    by_cases hI : c = 'I'
+    · subst hI
+      constructor
+      · rintro ⟨ab, c⟩
+        exact ⟨ab, fun h => absurd h (by decide), fun _ => c (by decide)⟩
+      · rintro ⟨ab, _, c⟩
+        exact ⟨ab, fun _ => c rfl⟩
+    · constructor
+      · rintro ⟨ab, _⟩
+        exact ⟨ab, fun h => absurd h hB, fun h => absurd h hI⟩
+      · rintro ⟨ab, _⟩
+        refine ⟨ab, fun h => ?_⟩
+        simp [hB, hI] at h
+
 /-! ### ECOS: the slack vector -/
 
 lemma slack_rows (n : ℕ) (x : ℕ → K) (l : List ℕ) (f : ℕ → ℕ → K) (g : ℕ → K) :
@@ -208,15 +241,17 @@ lemma IdxOk.of_wf {P : ConeProg K} (h : P.WF) : IdxOk P := ⟨h.qlt, h.xlen, h.x
 lemma ecos_slack (P : ConeProg K) (vt : ℕ → Char) (x : ℕ → K) (hw : IdxOk P) :
     (ecos P vt).slack x =
       ((ineqIdx P.lp).map (fun i => P.lp.b i - P.lp.row i x) ++
-       (zlbIdx P.lp).map (fun j => x j - (P.lp.lb j).getD 0) ++
-       (zubIdx P.lp).map (fun j => (P.lp.ub j).getD 0 - x j)) ++
+       (zlbIdx (clipBin P.lp vt)).map (fun j => x j - ((clipBin P.lp vt).lb j).getD 0) ++
+       (zubIdx (clipBin P.lp vt)).map (fun j => ((clipBin P.lp vt).ub j).getD 0 - x j)) ++
       (P.qmat.flatten.map x ++ P.xmat.flatten.map x) := by
   have hq : ∀ j ∈ P.qmat.flatten, j < P.lp.nc := by
     intro j hj; obtain ⟨q, hq, hjq⟩ := List.mem_flatten.mp hj; exact hw.qlt q hq j hjq
   have hx : ∀ j ∈ P.xmat.flatten, j < P.lp.nc := by
     intro j hj; obtain ⟨q, hq, hjq⟩ := List.mem_flatten.mp hj; exact hw.xlt q hq j hjq
-  have hlb : ∀ j ∈ zlbIdx P.lp, j < P.lp.nc := by intro j hj; simp [zlbIdx] at hj; exact hj.1
-  have hub : ∀ j ∈ zubIdx P.lp, j < P.lp.nc := by intro j hj; simp [zubIdx] at hj; exact hj.1
+  have hlb : ∀ j ∈ zlbIdx (clipBin P.lp vt), j < P.lp.nc := by
+    intro j hj; simp [zlbIdx] at hj; exact hj.1
+  have hub : ∀ j ∈ zubIdx (clipBin P.lp vt), j < P.lp.nc := by
+    intro j hj; simp [zubIdx] at hj; exact hj.1
   have e1 : (P.qmat.map List.length).sum = P.qmat.flatten.length := by
     rw [List.length_flatten]
   have e2 : P.xmat.length * 3 = P.xmat.flatten.length := (length_flatten_three _ hw.xlen).symm
@@ -225,11 +260,13 @@ lemma ecos_slack (P : ConeProg K) (vt : ℕ → Char) (x : ℕ → K) (hw : IdxO
   rw [zipWith_append' _ _ _ _ _ (by simp [Function.comp_def]), zipWith_append' _ _ _ _ _ (by simp [Function.comp_def]),
     zipWith_append' _ _ _ _ _ (by simp [Function.comp_def]), zipWith_append' _ _ _ _ _ (by simp [Function.comp_def]),
     slack_rows, slack_rows, slack_rows, slack_unit _ _ _ hq, slack_unit _ _ _ hx]
-  have m1 : (zlbIdx P.lp).map (fun j => - (P.lp.lb j).getD 0 - dot P.lp.nc (unitRow (-1) j) x) =
-      (zlbIdx P.lp).map (fun j => x j - (P.lp.lb j).getD 0) := by
+  have m1 : (zlbIdx (clipBin P.lp vt)).map
+        (fun j => - ((clipBin P.lp vt).lb j).getD 0 - dot P.lp.nc (unitRow (-1) j) x) =
+      (zlbIdx (clipBin P.lp vt)).map (fun j => x j - ((clipBin P.lp vt).lb j).getD 0) := by
     apply List.map_congr_left; intro j hj; rw [dot_unitRow _ _ _ _ (hlb j hj)]; ring
-  have m2 : (zubIdx P.lp).map (fun j => (P.lp.ub j).getD 0 - dot P.lp.nc (unitRow 1 j) x) =
-      (zubIdx P.lp).map (fun j => (P.lp.ub j).getD 0 - x j) := by
+  have m2 : (zubIdx (clipBin P.lp vt)).map
+        (fun j => ((clipBin P.lp vt).ub j).getD 0 - dot P.lp.nc (unitRow 1 j) x) =
+      (zubIdx (clipBin P.lp vt)).map (fun j => ((clipBin P.lp vt).ub j).getD 0 - x j) := by
     apply List.map_congr_left; intro j hj; rw [dot_unitRow _ _ _ _ (hub j hj)]; ring
   rw [m1, m2]
   simp [dot_row, List.append_assoc]
